@@ -138,8 +138,35 @@ theorem countUpdateW_cnt (wide : Bool) (n len : Nat) (hl : len < 2 ^ 29) :
   · rw [if_neg hc, UInt32.toNat_add]
     simp only [UInt32.toNat_ofNat']; omega
 
-theorem countUpdate_cnt (n len : Nat) (hl : len < 2 ^ 29) :
-    countUpdate (cnt0 n) (cnt1 n) len = (cnt0 (n + len), cnt1 (n + len)) := countUpdateW_cnt _ n len hl
+/-- the RFC 1321 comparison (after fix C19-05): the 64-bit bit count is right for every update length whose
+bit count fits a size_t -/
+theorem countUpdateN_cnt (n len : Nat) (hl : len < 2 ^ 61) :
+    countUpdateW false (cnt0 n) (cnt1 n) len = (cnt0 (n + len), cnt1 (n + len)) := by
+  unfold countUpdateW cnt0 cnt1
+  have hsh : len * 8 % 2 ^ 64 = len * 8 := Nat.mod_eq_of_lt (by omega)
+  simp only [hsh, Bool.false_eq_true, if_false]
+  have e0 : (UInt32.ofNat (8 * n % 2 ^ 32) + UInt32.ofNat (len * 8)).toNat = 8 * (n + len) % 2 ^ 32 := by
+    rw [UInt32.toNat_add]; simp only [UInt32.toNat_ofNat']; omega
+  have h0 : UInt32.ofNat (8 * n % 2 ^ 32) + UInt32.ofNat (len * 8) = UInt32.ofNat (8 * (n + len) % 2 ^ 32) := by
+    rw [← UInt32.toNat_inj, e0]; simp only [UInt32.toNat_ofNat']; omega
+  rw [h0]
+  congr 1
+  rw [← UInt32.toNat_inj]
+  have hlt : (UInt32.ofNat (8 * (n + len) % 2 ^ 32)).toNat = 8 * (n + len) % 2 ^ 32 := by
+    simp only [UInt32.toNat_ofNat']; omega
+  rw [hlt]
+  by_cases hc : 8 * (n + len) % 2 ^ 32 < len * 8 % 2 ^ 32
+  · rw [if_pos hc, UInt32.toNat_add, UInt32.toNat_add]
+    simp only [UInt32.toNat_ofNat', UInt32.toNat_one]; omega
+  · rw [if_neg hc, UInt32.toNat_add]
+    simp only [UInt32.toNat_ofNat']; omega
+/-- the comparison that is in the source today is the repaired one (`Gen.md5CarryWide` is regenerated from md5.cpp on
+every run; if the 64-bit comparison comes back this proof breaks) -/
+theorem carry_is_narrow : Gen.md5CarryWide = false := by decide
+
+theorem countUpdate_cnt (n len : Nat) (hl : len < 2 ^ 61) :
+    countUpdate (cnt0 n) (cnt1 n) len = (cnt0 (n + len), cnt1 (n + len)) := by
+  unfold countUpdate; rw [carry_is_narrow]; exact countUpdateN_cnt n len hl
 
 end Tbox.C19.Md5
 
@@ -160,7 +187,7 @@ theorem poke_length (mem : List UInt8) (off : Nat) (d : List UInt8) (h : off + d
     (poke mem off d).length = mem.length := by
   unfold poke; simp; omega
 
-theorem repr_update (c : Ctx) (m data : List UInt8) (h : Repr P c m) (hl : data.length < 2 ^ 29) :
+theorem repr_update (c : Ctx) (m data : List UInt8) (h : Repr P c m) (hl : data.length < 2 ^ 61) :
     Repr P (update P c data) (m ++ data) := by
   obtain ⟨M, tail, hm, hM, ht, hb, hbt, hs, h0, h1⟩ := h
   have hmlen : m.length = M.length + tail.length := by rw [hm]; simp
@@ -214,7 +241,7 @@ open Tbox.C19
 variable (P : Params)
 
 theorem repr_foldl : ∀ (pieces : List (List UInt8)) (c : Ctx) (m : List UInt8), Repr P c m →
-    (∀ p ∈ pieces, p.length < 2 ^ 29) → Repr P (pieces.foldl (update P) c) (m ++ pieces.flatten) := by
+    (∀ p ∈ pieces, p.length < 2 ^ 61) → Repr P (pieces.foldl (update P) c) (m ++ pieces.flatten) := by
   intro pieces
   induction pieces with
   | nil => intro c m h _; simpa using h
@@ -246,14 +273,14 @@ theorem finish_eq (c c' : Ctx) (m : List UInt8) (h : Repr P c m) (h' : Repr P c'
   simp only
   generalize hpad : P.padding.take (if ((c.count0 >>> 3) &&& 0x3F).toNat < 56 then 56 - ((c.count0 >>> 3) &&& 0x3F).toNat
       else 120 - ((c.count0 >>> 3) &&& 0x3F).toNat) = pad
-  have hpl : pad.length < 2 ^ 29 := by
+  have hpl : pad.length < 2 ^ 61 := by
     rw [← hpad, List.length_take]
     have : ((c.count0 >>> 3) &&& 0x3F).toNat < 64 := by
       rw [UInt32.toNat_and]
       have h63 : (0x3F : UInt32).toNat = 2 ^ 6 - 1 := rfl
       rw [h63, Nat.and_two_pow_sub_one_eq_mod]; omega
     split <;> omega
-  have hbl : (unwords [c.count0, c.count1]).length < 2 ^ 29 := by rw [unwords2_length]; omega
+  have hbl : (unwords [c.count0, c.count1]).length < 2 ^ 61 := by rw [unwords2_length]; omega
   have r1 := repr_update P _ _ _ (repr_update P c m pad h hpl) hbl
   have r2 := repr_update P _ _ _ (repr_update P c' m pad h' hpl) hbl
   rw [(repr_unique P _ _ _ r1 r2).1]
